@@ -65,6 +65,11 @@ def check_ref_from_ptr(ctx, F, hty, size_field_off, rule="A2"):
                      A.site(), how=how, why=how)
 
 
+def same_ptr(a, b):
+    pa, pb = G.ptr_norm(a), G.ptr_norm(b)
+    return pa is not None and pb is not None and pa[0] == pb[0] and pa[1].key() == pb[1].key()
+
+
 def load_chain(ctx, F, A, ex, rfp, memory_ctor, wrapper_name, wrapper_adt, tail_checks):
     """Shared by C02/C10: `NonNull::new(ptr).ok_or(Memory(Null))?`, `ref_from_ptr(nn).map_err(Memory)?`,
     then a list of (error variant, predicate description) tests on the loaded structure, then Ok(Wrapper(inner)).
@@ -73,28 +78,29 @@ def load_chain(ctx, F, A, ex, rfp, memory_ctor, wrapper_name, wrapper_adt, tail_
     nn = ("nonnull_new", arg(1))
     e_null, e_mem = ex[0], ex[1]
     rest = ex[2:]
-    v = N(e_null.val)
-    g1 = False
-    okor = None
-    if v[0] == "try_err":
-        okor = v[1]
-        if okor[0] == "call" and cn(okor[1]) == "core::option::Option::ok_or" and okor[2][0] == nn:
-            ev = CH.describe(("aggr", ("adt", "core::result::Result", "Err", ()), (okor[2][1],)))
-            g1 = ev[1] == "Memory::Null"
+    # exit 1: Err(Memory(Null)) exactly when NonNull::new(ptr) is None
+    g1 = e_null.kind == "Err" and e_null.variant == "Memory::Null" and CH.own_is_variant(e_null, nn, 0)
     ctx.check(g1, "A2", "load:1:null", "first exit: NonNull::new(ptr) is None (ptr null) -> Err(Memory(Null)), before anything is read",
-              A.site(e_null.bb), how=G.show(e_null.val), why=G.show(e_null.val))
-    v = N(e_mem.val)
+              A.site(e_null.bb), how=G.show(e_null.val), why="%s own %s" % (G.show(e_null.val), [G.show(f) for f in e_null.own]))
+    # exit 2: the scrutinee X of its guard is the memory check over the non-null pointer; its error is wrapped unchanged
     g2 = False
-    me = None
-    if v[0] == "try_err" and okor is not None:
-        me = v[1]
-        if me[0] == "call" and cn(me[1]) == "core::result::Result::map_err":
-            r, f = me[2][0], me[2][1]
-            g2 = (r[0] == "call" and r[1] == rfp and r[2] == (("try_ok", okor),) and f == ("fn", memory_ctor))
+    X = None
+    if e_mem.kind == "Err" and len(e_mem.own) == 1:
+        f = N(e_mem.own[0])
+        if f[0] == "cmp" and f[2][0] == "discr":
+            X = f[2][1]
+    ptr = CH.payload_of(nn, 1)
+    if X is not None and X[0] == "call":
+        direct = X[1] == rfp and X[2] == (ptr,)
+        rfs = rfp.replace("::ref_from_ptr::<'_>", "::ref_from_slice")
+        via_slice = X[1] == rfs and len(X[2]) == 1 and X[2][0][0] == "rawslice" and same_ptr(X[2][0][1], ptr)
+        pay = N(e_mem.payload) if e_mem.payload is not None else None
+        wrapped = pay is not None and pay[0] == "aggr" and pay[1][:3] == ("adt", memory_ctor.rsplit("::", 1)[0], "Memory") and pay[2] == (CH.payload_of(X, 1),)
+        g2 = (direct or via_slice) and wrapped and CH.own_is_variant(e_mem, X, 1) and CH.guarded_by_variant(e_mem.facts, nn, 1)
     ctx.check(g2 and CH.precedes(e_null, e_mem), "A2", "load:2:memory",
               "second exit: the error of ref_from_ptr(non-null ptr), wrapped unchanged in LoadError::Memory, tested after the null check",
-              A.site(e_mem.bb), how=G.show(e_mem.val), why=G.show(e_mem.val))
-    inner = ("try_ok", me) if me is not None else None
+              A.site(e_mem.bb), how=G.show(e_mem.val), why="%s own %s" % (G.show(e_mem.val), [G.show(f) for f in e_mem.own]))
+    inner = CH.payload_of(X, 0) if X is not None else None
     this = ("aggr", ("adt", wrapper_adt, wrapper_name, ("0",)), (inner,))
     errs = [e for e in rest if e.kind == "Err"]
     oks = [e for e in rest if e.kind == "Ok"]
